@@ -39,7 +39,10 @@ def Seq.substituteSymbols (inputs : Dict Expr) : Seq → Except Err Seq
   | .constant m => pure (.constant (Expr.subst inputs m))
   | .arithmetic i d => pure (.arithmetic (Expr.subst inputs i) (Expr.subst inputs d))
   | .geometric r => pure (.geometric (Expr.subst inputs r))
-  | .closedForm s p n => pure (.closedForm (s.map (Expr.subst inputs)) (p.map (Expr.subst inputs)) (Expr.subst inputs n))
+  | .closedForm s p n =>
+    -- the placeholder is bound by the formulas: a like-named symbol of the scope is not substituted into them (after the fix F18)
+    let inputs' := match n with | .sym nm => inputs.erase nm | _ => inputs
+    pure (.closedForm (s.map (Expr.subst inputs')) (p.map (Expr.subst inputs')) n)
   | .custom t i =>
     match i with
     | .sym it =>
